@@ -62,6 +62,9 @@ public:
   void AddMIPStart(ArrayRef<double> x0, ArrayRef<int> sparsity) override;
   ALLOW_STD_FEATURE(VAR_PRIORITIES, true)
   void VarPriorities(ArrayRef<int> p) override;
+  ALLOW_STD_FEATURE(RAYS, true)
+  ArrayRef<double> Ray() override { Ev("Ray"); return std::vector<double>(lp()->nvars, 1.0); }
+  ArrayRef<double> DRay() override { Ev("DRay"); return std::vector<double>{}; }
   ALLOW_STD_FEATURE(IIS, true)
   void ComputeIIS() override { Ev("ComputeIIS"); }
   IIS GetIIS() override;
